@@ -61,7 +61,9 @@ Definition merge_stack (s : stack) : ctx :=
   fold_left (fun cargs c => supdate_all c cargs) s [].
 
 (* ------------------------------------------------------------------ the decorator's wrapper f_ *)
-Inductive err : Type := TypeErr | ValueErr | AssertErr | OtherErr | FuelErr.
+(* IntrErr: a BaseException that is not an Exception (KeyboardInterrupt, SystemExit, ...) raised by the
+   connection while a command is being sent *)
+Inductive err : Type := TypeErr | ValueErr | AssertErr | OtherErr | FuelErr | IntrErr.
 
 Definition is_required (d : default) : bool := match d with DRequired => true | DVal _ => false end.
 
@@ -540,7 +542,12 @@ Inductive op : Type :=
       (* with c(kw...): blk -- also `with v: blk` for a Context object v = c(kw...) kept in a variable:
          entering pushes the object, i.e. a frame equal to kw, however often and wherever it is already on
          the stack (update_current_context is not applied to a kept object: it would alter every occurrence) *)
-| OApp (pos : list value) (kw : list (string * value)) (blk : list op)   (* with c.application(pos..., kw...): blk *)
+| OApp (pos : list value) (kw : list (string * value)) (blk : list op) (intr : bool)
+      (* with c.application(pos..., kw...): blk;  intr: the connection raises KeyboardInterrupt / SystemExit
+         (a BaseException) while the exit's stop command is being sent *)
+| OWithCb (kw : list (string * value)) (blk : list op)
+      (* ctx = c(kw...); ctx.before_close(f); with ctx: blk -- where the callback f raises (an Exception or a
+         BaseException) *)
 | OUpdate (kw : list (string * value))                         (* c.update_current_context(kw...) *)
 | ORaise                                                       (* raise *)
 | OTry (blk : list op).                                        (* try: blk / except: pass *)
@@ -574,6 +581,14 @@ Fixpoint update_last (kw : list (string * value)) (s : stack) : option stack :=
 
 Definition stop_signal : value := VInt AppSignal_stop.
 
+(* the connection raises while the first command of the call is being sent: that command was handed over,
+   nothing after it *)
+Definition interrupted (o : outcome) : outcome :=
+  match o with
+  | (w :: _, _) => ([w], Some IntrErr)
+  | _ => o
+  end.
+
 Fixpoint run_op (c : ctl) (cls : string) (o : op) (s : stack) {struct o} : res :=
   match o with
   | OCall m pos kw propagate =>
@@ -583,7 +598,7 @@ Fixpoint run_op (c : ctl) (cls : string) (o : op) (s : stack) {struct o} : res :
       (* Context(kwargs).__enter__ : push;  __exit__ : (no callbacks) pop, exception not swallowed *)
       let '(ev, s2, r) := run_list (run_op c cls) blk (s ++ [mkdict kw]) in
       (ev, removelast s2, r)
-  | OApp pos kw blk =>
+  | OApp pos kw blk intr =>
       (* application(app_id) goes through the decorator itself *)
       match find_sig cls "application" with
       | None => ([EvCall "application" ([], Some OtherErr)], s, true)
@@ -597,11 +612,16 @@ Fixpoint run_op (c : ctl) (cls : string) (o : op) (s : stack) {struct o} : res :
                   let '(ev, s2, r) := run_list (run_op c cls) blk (s ++ [mkdict [("app_id", a)]]) in
                   (* __exit__: callbacks first (send_signal("stop") resolved against the stack as it is
                      now), then pop in `finally` *)
-                  let out := call FUEL c cls "send_signal" s2 [stop_signal] [] in
+                  let out0 := call FUEL c cls "send_signal" s2 [stop_signal] [] in
+                  let out := if intr then interrupted out0 else out0 in
                   (ev ++ [EvStop out], removelast s2, r || has_err out)
               end
           end
       end
+  | OWithCb kw blk =>
+      (* __exit__: the callback raises; the pop still happens (`finally`); the exception travels outward *)
+      let '(ev, s2, _) := run_list (run_op c cls) blk (s ++ [mkdict kw]) in
+      (ev, removelast s2, true)
   | OUpdate kw =>
       match update_last kw s with
       | Some s' => ([], s', false)
@@ -621,7 +641,7 @@ Definition flat_value (v : value) : Z * Z :=
 Definition flat_err (e : option err) : Z :=
   match e with
   | None => 0 | Some TypeErr => 1 | Some ValueErr => 2 | Some AssertErr => 3 | Some OtherErr => 4
-  | Some FuelErr => 5
+  | Some FuelErr => 5 | Some IntrErr => 6
   end.
 Definition flat_fkind (k : fkind) : Z := match k with FByte => 0 | FBit => 1 end.
 Definition flat_wire (w : wire) :=
